@@ -174,7 +174,11 @@ CLAIMS = {
              'compiled data is absent or the compilation of the current source), render_result, render_history_independent (a call '
              'after any history returns what a brand-new template with the same source, defaults and variables returns), '
              'render_keeps_persistent, render_repeatable, pickle_roundtrip, restored_renders_same, munge_eq_fresh, munge_source, '
-             'file_pickles_name. Correspondence: the model\'s state after every operation of random histories vs the real object '
+             'file_pickles_name. The object life cycle of DT_String.String (__init__, initvars, cook with read / read_raw, munge, var, '
+             'default, __getstate__, the cook-on-first-use block of __call__) is TRANSLATED from /repo on every run '
+             '(harness/trans_tmpl.py -> GenTmpl.lean) and proved equal to that state machine: gen_init_is_fresh, gen_cook_is_model, '
+             'gen_munge_is_model, gen_var_default_is_model, gen_getstate_is_model, gen_render_is_model. '
+             'Correspondence: the model\'s state after every operation of random histories vs the real object '
              '(raw, globals, _vars, presence of _v_cooked) and the model\'s (program, defaults, variables, inputs) of each call '
              'reproduce its output; oracle: each render == render of a NEW template built through the constructor from the '
              'documented current source and defaults, repeated renders equal, caller mappings / sequences / keyword values and '
@@ -183,7 +187,7 @@ CLAIMS = {
              'that rendering a compiled program depends only on (program, defaults, variables, inputs) — no per-render state kept '
              'on compiled tags — is an engine parameter, tested by the oracle (10 sources incl. sort_expr / reverse_expr that '
              'depend on the inputs), not proved',
-        technique='Lean 4 proof (invariant by induction over the operation history, refinement to "fresh template") + '
+        technique='Lean 4 proof over a model partly regenerated from the source on every run (statement-by-statement translator, equality with the hand-written model proved); Lean 4 proof (invariant by induction over the operation history, refinement to "fresh template") + '
                   'model/implementation correspondence after every operation + fresh-template oracle',
         ref='DESIGN.md §5 C17'),
     'C18': dict(
